@@ -9,7 +9,7 @@ import (
 func init() {
 	slip.Define(
 		func(args slip.List) slip.Object {
-			f := Prog2{Function: slip.Function{Name: "prog2", Args: args}}
+			f := Prog2{Function: slip.Function{Name: "prog2", Args: args, SkipEval: []bool{true}}}
 			f.Self = &f
 			return &f
 		},
@@ -38,8 +38,18 @@ type Prog2 struct {
 }
 
 // Call the function with the arguments provided.
-func (f *Prog2) Call(s *slip.Scope, args slip.List, depth int) slip.Object {
+func (f *Prog2) Call(s *slip.Scope, args slip.List, depth int) (result slip.Object) {
 	slip.CheckArgCount(s, depth, f, args, 2, -1)
-
-	return args[1]
+	d2 := depth + 1
+	for i := range args {
+		v := slip.EvalArg(s, args, i, d2)
+		switch v.(type) {
+		case *slip.ReturnResult, *GoTo:
+			return v
+		}
+		if i == 1 {
+			result = v
+		}
+	}
+	return
 }
